@@ -409,9 +409,10 @@ async fn run_case(case: &Case) -> CaseOut {
                         let el_first = now - a.t_first;
                         let el_last = now - a.t_last;
                         let in_time = el_first < SELECT_TIMEOUT;
-                        // retransmitted SELECT: the statement does not say from which transmission the timeout runs
-                        let unc = el_first == SELECT_TIMEOUT
-                            || (el_first > SELECT_TIMEOUT && el_last <= SELECT_TIMEOUT);
+                        // the select timeout runs from the SELECT that was executed: a retransmission is answered from
+                        // memory (C05) and selects nothing anew, so it cannot keep a selection alive
+                        let _ = el_last;
+                        let unc = el_first == SELECT_TIMEOUT;
                         let misses: Vec<&'static str> = [
                             (!bytes_ok, "bytes"),
                             (!seq_ok, "seq"),
@@ -711,7 +712,7 @@ async fn run_case(case: &Case) -> CaseOut {
 
 pub fn run<C: Codec>(tier: Tier) -> i32 {
     let mut ctx = Ctx::<C>::new("C04", tier);
-    ctx.assumptions.push("not judged: OPERATE exactly at the timeout instant; after a retransmitted SELECT, OPERATEs later than timeout after the first but within timeout of the last transmission".into());
+    ctx.assumptions.push("not judged: OPERATE exactly at the timeout instant (the timeout runs from the first transmission of the SELECT, retransmissions do not extend it)".into());
     ctx.run::<Sbo>();
     ctx.finish()
 }
